@@ -49,14 +49,14 @@ package ketoapi
 //@   ensures result != nil && fresh(result)
 
 //@ func (*RelationQuery).FromURLQuery
-//@   props C13 C18 C08
+//@   props C13 C18
 //@   requires query != nil
 //@   modifies q.all
 //@   ensures result1 == nil ==> result0 != nil && !(result0.SubjectID != nil && result0.SubjectSet != nil)
 //@   ensures result1 == nil && q != nil ==> result0 == q
 
 //@ func (*RelationTuple).FromURLQuery
-//@   props C13 C18 C08
+//@   props C13 C18
 //@   requires r != nil && query != nil
 //@   modifies r.Namespace, r.Object, r.Relation, r.SubjectID, r.SubjectSet
 //@   ensures result1 == nil ==> result0 == r && onesubject(r)
@@ -94,3 +94,29 @@ package ketoapi
 //@   pure
 //@   requires t != nil
 //@   ensures result != nil
+
+//@ func queryData.GetSubject
+//@   trusted
+//@   pure
+//@   ensures wfwiresubject(result)
+//@ func queryData.GetObject
+//@   trusted
+//@   pure
+//@ func queryData.GetNamespace
+//@   trusted
+//@   pure
+//@ func queryData.GetRelation
+//@   trusted
+//@   pure
+
+//@ func (*RelationQuery).FromDataProvider
+//@   props C13 C18
+//@   requires q != nil && d != nil
+//@   modifies q.all
+//@   ensures result == q && !(q.SubjectID != nil && q.SubjectSet != nil)
+
+//@ func (*RelationTuple).ToProto
+//@   props C13 C18
+//@   modifies nothing
+//@   requires[C13] one-subject: onesubject(r)
+//@   ensures result != nil && fresh(result)
